@@ -26,7 +26,8 @@ def dec(d):
         flat = np.array([complex(p[0], p[1]) for p in d["v"]], dtype=dt)
     else:
         flat = np.array(d["v"], dtype=dt)
-    return flat.reshape(d["sh"])
+    a = flat.reshape(d["sh"])
+    return np.asfortranarray(a) if d.get("order") == "F" else a  # (same values, column-major memory layout)
 
 
 def dec_scalar(s):
@@ -116,7 +117,7 @@ def dec_index(s):
     if "sl" in s:
         return slice(*s["sl"])
     if "ix" in s:
-        return np.array(s["ix"], dtype=np.int64)
+        return np.array(s["ix"], dtype={"i1": np.int8, "i2": np.int16, "i4": np.int32, "u1": np.uint8}.get(s.get("dt"), np.int64))
     if "i" in s:
         return int(s["i"])
     if "li" in s:
@@ -131,12 +132,19 @@ def hh_beta(ir):
 
 
 # ----------------------------------------------------------------------------- builder (cola)
+def _shared(ir, ch):
+    """children of a node, with ir['share'] = [[i, j], ...] making child j the very same object as child i"""
+    for i, j in ir.get("share", []):
+        ch[j] = ch[i]
+    return ch
+
+
 def build(ir):
     """IR -> cola LinearOperator, through public constructors and combinators only."""
     import cola
     from cola import ops
     k = ir["k"]
-    ch = [build(c) for c in ir.get("ch", [])]
+    ch = _shared(ir, [build(c) for c in ir.get("ch", [])])
     if k == "dense":
         return ops.Dense(dec(ir["a"]))
     if k == "lazify":
@@ -223,6 +231,8 @@ def build(ir):
     if k == "gram":  # the same object on both sides
         A = ch[0]
         return {"HA": lambda: A.H @ A, "AH": lambda: A @ A.H, "TA": lambda: A.T @ A, "AT": lambda: A @ A.T}[ir["form"]]()
+    if k == "inv":  # the lazy inverse operator returned by cola.linalg.inv (default algorithm)
+        return cola.linalg.inv(ch[0])
     if k == "cong":  # congruence B @ M1 @ ... @ Mk @ B^H (or B^T): the same object B on both ends
         out = ch[0]
         for M in ch[1:]:
@@ -291,7 +301,7 @@ def _cast(R, dt):
 
 def denote(ir):
     k = ir["k"]
-    ch = [denote(c) for c in ir.get("ch", [])]
+    ch = _shared(ir, [denote(c) for c in ir.get("ch", [])])
     if k in ("dense", "lazify", "tri", "matmat", "arr"):
         return Ref(dec(ir["a"]))
     if k == "relazify":
@@ -397,6 +407,9 @@ def denote(ir):
         f = ir["form"]
         out = {"HA": M.conj().T @ M, "AH": M @ M.conj().T, "TA": M.T @ M, "AT": M @ M.T}[f]
         return Ref(out, Ma.T @ Ma if f in ("HA", "TA") else Ma @ Ma.T, ch[0].exact)
+    if k == "inv":
+        Mi = np.linalg.inv(ch[0].M.astype(np.complex128 if ch[0].M.dtype.kind == "c" else np.float64)).astype(ch[0].M.dtype)
+        return Ref(Mi, np.abs(Mi).astype(np.float64) * np.linalg.cond(ch[0].M.astype(np.complex128)), False)
     if k == "cong":
         M, Ma = ch[0].M, ch[0].Mabs
         for c in ch[1:]:
